@@ -356,6 +356,35 @@ func V1Pay(fee bool, outs int) Action {
 	}}
 }
 
+// V1Gather consolidates three outputs into one (more inputs than outputs; no fee).
+func V1Gather() Action {
+	return Action{"v1gather", func(bc *BlockCtx) bool {
+		if !bc.V1OK() {
+			return false
+		}
+		w := bc.W
+		save, nonce := bc.snapshot()
+		var txn types.Transaction
+		var sum types.Currency
+		for i := 0; i < 3; i++ {
+			p, ok := bc.PickSC(func(c int) bool { return c == AddrV1 || c == AddrV1b }, types.Siacoins(1))
+			if !ok {
+				*bc = save
+				bc.W.Nonce = nonce
+				return false
+			}
+			bc.Used[types.Hash256(p.ID)] = true
+			c := w.Keys.ClassOf(p.SiacoinOutput.Address)
+			txn.SiacoinInputs = append(txn.SiacoinInputs, types.SiacoinInput{ParentID: p.ID, UnlockConditions: w.Keys.StdUC(KeyOf(c))})
+			sum = sum.Add(p.SiacoinOutput.Value)
+		}
+		txn.SiacoinOutputs = []types.SiacoinOutput{{Value: sum, Address: w.Keys.Addr(AddrV1)}}
+		w.SignV1Whole(&txn)
+		bc.addV1("v1gather", txn)
+		return true
+	}}
+}
+
 // V1Chain: a payment whose output is spent by the next transaction of the block.
 func V1Chain() Action {
 	return Action{"v1chain", func(bc *BlockCtx) bool {
